@@ -1,6 +1,6 @@
 SPECIFICATION Spec
 CONSTANT Calls <- K3
-CONSTANT Failing <- NoFail
+CONSTANT Failing <- F3
 CONSTANT GiveBackOnFailure = FALSE
 CONSTANT Fix_RegisterAtomic = TRUE
 CONSTANT Fix_ExplicitCheck = TRUE
